@@ -35,9 +35,9 @@ def run(ctx):
       bs = err_blocks(d, variant)
       ctx.ob('R26.1', d.n, f'exactly one Err({variant}) site', len(bs) == 1, f'{len(bs)}', where(d, d.line), nontrivial=False)
       for bi in bs:
-        gs = guard_strings(d, bi)
+        gs = guard_strings(d, bi, forms=True)   # every equivalent spelling of each comparison
         missing = [p for p in pats if not any(__import__('re').search(p, g) for g in gs)]
-        cmpg = [g for g in gs if not g.startswith('discr(')]
+        cmpg = [g for g in guard_strings(d, bi) if not g.startswith('discr(')]
         ctx.ob('R26.1', d.n, f'Err({variant}) is returned exactly under its condition', not missing and len(cmpg) == len(pats), f'guards {gs}; missing {missing}', where(d, d.line))
     ub = err_blocks(d, 'Unterminated')
     ctx.ob('R26.1', d.n, 'exactly one Err(Unterminated) site', len(ub) == 1, f'{len(ub)}', where(d, d.line), nontrivial=False)
